@@ -167,5 +167,11 @@ def run(repo, res, tier):
     # that edits a node in place gives every occurrence the level of the last one visited (two readings of one word across levels)
     from . import c02
     c02.arena_immut(repo, res, tier)
+    # `||` is transparent to what is offered inside a word only if each within-word automaton reads ITS OWN level tables: they may be
+    # shared only when compared (ISOCOV), and every wrapper declares every level table (DECLGUARD) -- shared with C04 / C12
+    from . import c04
+    c04.isocov(repo, res)
+    from vlib import rules_declguard as DG
+    DG.declguard_rule(repo, res, modules=("bash",))
     res.floor("EQFIELDS", res.count("EQFIELDS"), 6)
     res.floor("COARSE", res.count("COARSE"), 3)
